@@ -20,8 +20,8 @@ def run(ck):
     from pygaps.utilities.exceptions import CalculationError
     rng = ck.rng
     thorough = ck.tier == "thorough"
-    nvec = 300 if thorough else 40
-    npts = 25 if thorough else 12
+    nvec = ck.n(40, 300)
+    npts = ck.n(12, 25)
     info = ck.gen_info.get("Models", {}).get("models", {})
     models = list(info) or ["Henry", "Langmuir", "DSLangmuir", "TSLangmuir", "BET", "GAB", "Freundlich", "DR", "DA", "Quadratic",
                             "TemkinApprox", "Toth", "JensenSeaton", "Virial", "FHVST", "WVST"]
@@ -169,7 +169,7 @@ def run(ck):
                     ck.fail_case({**sig0, "clause": "henry"}, {"params": par, "p": p0, "slope": hs, "expected": k})
             # inverse compositions
             tol = 1e-5 if name in QUAD_INV else (1e-4 if name in ROOT_INV else 1e-10)
-            for p1, n1 in list(zip(ps, nn))[:: (2 if thorough else 3)]:
+            for p1, n1 in list(zip(ps, nn))[:: (ck.n(3, 2))]:
                 if n1 <= 0 or p1 <= 0:
                     continue
                 if name in SAT and n1 > 0.95 * SAT[name](par) and name in QUAD_INV | {"Toth", "Langmuir"}:
@@ -209,7 +209,7 @@ def run(ck):
     PST = [("absolute", u) for u in c01.PA] + [("relative", None), ("relative%", None)]
     LST = [(b, u) for b in ("molar", "mass", "volume_gas", "volume_liquid") for u in c01.LTABLE[b]] + [("fraction", None), ("percent", None)]
     MST = [(b, u) for b in ("mass", "volume", "molar") for u in c01.MTABLE[b]]
-    for it in range(400 if thorough else 80):
+    for it in range(ck.n(80, 400)):
         name = rng.choice(["Langmuir", "Henry", "Toth", "DSLangmuir", "Freundlich"])
         par = sample_params(name, rng)
         st_p, st_l, st_m = rng.choice(PST), rng.choice(LST[:-2]), rng.choice(MST)       # stored: physical loading (fraction: finding S5)
